@@ -431,7 +431,15 @@ class _LebCut:
             raise TypeError(f"unsupported operand type for the integer argument: '{type(i).__name__}'")
         t = term(i)
         self.requires.append(z3.And(t >= 0, t < 2 ** 32))
-        self.facts.append(leb.uleblen(t) == leb.uleblen_def(t))      # proved for all v in [0, 2^32) by C19.leb.unsigned.length-exact
+        fact = leb.uleblen(t) == leb.uleblen_def(t)      # proved for all v in [0, 2^32) by C19.leb.unsigned.length-exact
+        self.facts.append(fact)
+        try:
+            # the callee's postcondition is known to the caller from here on (under its precondition): counter-models of later clauses
+            # then give uleblen its real values instead of arbitrary ones
+            from pyvc.sym import cur
+            cur().pc.append(z3.Implies(z3.And(t >= 0, t < 2 ** 32), fact))
+        except Exception:
+            pass
         output.write(leb.ULEB(t))
 
 
